@@ -228,14 +228,24 @@ def dict_set(eng, st, ref, cell, key, v):
     vt = box(eng.deref(st, v))
     has = dict_has_term(cell, kt)
     nc = dict(cell)
-    nc["keys"] = z3.If(has, cell["keys"], VS.cat(cell["keys"], VS.unit(kt)))
+    newkeys = fresh("dkeys", VSq)
+    st.assume(newkeys == z3.If(has, cell["keys"], VS.cat(cell["keys"], VS.unit(kt))))
+    nc["keys"] = newkeys
     nc["map"] = z3.Store(cell["map"], kt, vt)
     from .values import mk_vsq
     nc["log"] = VS.cat(cell.get("log", VS.empty), VS.unit(Val.VT(mk_vsq([kt, vt]))))
+    nc.pop("static", None)
     st.heap[ref.ident] = nc
 
 
 def dict_method(eng, st, ref, cell, name, args, kwargs, node):
+    if name == "get" and cell.get("static") is not None:
+        from .engine import ite_val
+        key = eng.deref(st, args[0])
+        res = eng.deref(st, args[1]) if len(args) > 1 else VNone()
+        for k0, v0 in reversed(cell["static"]):
+            res = ite_val(eng.eq_vals(st, key, k0), v0, res)
+        return [(st, res)]
     if name == "get":
         kt = box(eng.deref(st, args[0]))
         has = dict_has_term(cell, kt)
